@@ -23,6 +23,8 @@ import (
 	"strconv"
 	"strings"
 	"sync"
+	"sync/atomic"
+	"time"
 
 	. "verifharness/vhlib"
 )
@@ -85,6 +87,9 @@ func runOnce(drc, dir string, args []string) triple {
 	return canon(triple{so.String(), se.String(), code})
 }
 
+// envFailures counts runs dropped because the process could not be run (inconclusive, never a failure).
+var envFailures atomic.Int64
+
 // runCase runs the real binary c.Runs times; returns the distinct triples in order of first appearance.
 func runCase(drc, base string, idx int, c *Case) (distinct []triple, counts []int) {
 	dir := filepath.Join(base, fmt.Sprintf("case%05d", idx))
@@ -93,6 +98,17 @@ func runCase(drc, base string, idx int, c *Case) (distinct []triple, counts []in
 	defer os.RemoveAll(dir)
 	for i := 0; i < c.Runs; i++ {
 		t := runOnce(drc, dir, c.Args)
+		// environment failure (the process could not be started, or was killed by a signal: exit -1):
+		// not an observation of drc. Retry serially after a pause; if it persists the run is dropped
+		// and counted as inconclusive.
+		for try := 0; t.Exit == -1 && try < 3; try++ {
+			time.Sleep(time.Duration(300*(try+1)) * time.Millisecond)
+			t = runOnce(drc, dir, c.Args)
+		}
+		if t.Exit == -1 {
+			envFailures.Add(1)
+			continue
+		}
 		found := false
 		for j := range distinct {
 			if distinct[j] == t {
@@ -1134,6 +1150,10 @@ func run(ctx *Ctx) *Result {
 	defer drv.Close()
 	for i, c := range cases {
 		o := outs[i]
+		if len(o.distinct) == 0 {
+			res.Count("inconclusive:no-run-could-be-started")
+			continue
+		}
 		canonIn := JSONStr(c.Files) + strings.Join(c.Args, " ")
 		seedInput := strings.HasPrefix(c.Family, "seed_")
 		res.Eval(canonIn, c.Ties >= 2 || seedInput && (o.distinct[0].Stdout != "" || o.distinct[0].Exit != 0))
@@ -1172,6 +1192,10 @@ func run(ctx *Ctx) *Result {
 				res.Disagree("choice:"+c.Family, c, impl, model)
 			}
 		}
+	}
+	if n := envFailures.Load(); n > 0 {
+		res.CountN("inconclusive:runs-dropped-environment", int(n))
+		res.Notes = append(res.Notes, fmt.Sprintf("%d process runs could not be started or were killed (environment); retried 3 times, dropped, not compared", n))
 	}
 	separationPass(res, cases)
 	if ctx.Replay == "" {
